@@ -30,7 +30,7 @@ def build(ctx, n, nsteps):
 
 def run(ctx):
     quick = ctx.tier == "quick"
-    cases = build(ctx, 12 if quick else 400, 7 if quick else 18)
+    cases = build(ctx, 36 if quick else 400, 8 if quick else 18)
     ctx.cov["rule"] = ("random histories over {source changes (content+mtime, same-size content, chmod, add/remove, kind swaps), backup(options), backup "
                        "killed at a random storage operation (incl. the empty-file state) and later resumed, delete(subset), gc, validate}; after "
                        "every step every version that was completed and not deleted is restored by id and must equal the snapshot taken when "
@@ -47,6 +47,8 @@ def run(ctx):
         snaps = {}       # band id -> snapshot tree
         last_snap = None
         alive = set()
+        known_bands = set()
+        pending_backup = None
         ok = True
         nb = 0
         for i, (st, mk, rs) in enumerate(zip(c["steps"], c["marks"], r)):
@@ -58,15 +60,14 @@ def run(ctx):
             if mk["kind"] == "snap":
                 last_snap = rs["tree"]
             elif mk["kind"] == "backup":
-                bid = nb
                 nb += 1
+                pending_backup = None
                 if rs.get("result") == "ok" and not rs.get("crashed"):
                     if rs["value"]["errors"] or rs.get("monitor_errors") and any(e["class"] not in ("BandHeadMissing", "DeserializeJson", "InvalidMetadata", "SnapCompressionError") for e in rs["monitor_errors"]):
                         ctx.oracle_fail("history/backup-errors", f"fault-free backup reported errors {json.dumps(rs.get('monitor_errors'))[:200]}", small)
                         ok = False
                         break
-                    snaps[bid] = last_snap
-                    alive.add(bid)
+                    pending_backup = last_snap          # its band id is read off the next archive snapshot
                 elif not rs.get("crashed"):
                     ctx.oracle_fail("history/backup-failed", f"fault-free backup failed: {json.dumps(rs.get('err'))[:200]}", small)
                     ok = False
@@ -79,6 +80,15 @@ def run(ctx):
                     pass
             elif mk["kind"] == "arch":
                 present = {int(d[1:]) for d in rs["arch"]["dirs"] if scen.BAND_RE.match(d)}
+                if pending_backup is not None:
+                    new = present - known_bands
+                    if new:
+                        snaps[max(new)] = pending_backup
+                        alive.add(max(new))
+                    elif present:
+                        pass
+                    pending_backup = None
+                known_bands = set(present)
                 alive &= present
             elif mk["kind"] == "restore":
                 b = mk["band"]
